@@ -165,6 +165,54 @@ pub fn globals() -> Globals {
     b.build()
 }
 
+/// Natives that exercise the public host APIs whose state must survive collections (C03): the heap's string
+/// interner (`Heap::alloc_str_intern`), the module's `extra_value`, pointer identity.  NOT part of `globals()`:
+/// only programs run with `globals_with_host_api()` see them.
+#[starlark_module]
+pub fn host_api_globals(builder: &mut GlobalsBuilder) {
+    /// `Heap::alloc_str_intern(s)`: the interned string value for this text.
+    fn intern<'v>(
+        #[starlark(require = pos)] s: &str,
+        heap: starlark::values::Heap<'v>,
+    ) -> anyhow::Result<starlark::values::StringValue<'v>> {
+        Ok(heap.alloc_str_intern(s))
+    }
+
+    /// `Value::ptr_eq`: are the two values the very same object?
+    fn same<'v>(
+        #[starlark(require = pos)] a: Value<'v>,
+        #[starlark(require = pos)] b: Value<'v>,
+    ) -> anyhow::Result<bool> {
+        Ok(a.ptr_eq(b))
+    }
+
+    /// `Module::set_extra_value(v)` on the module being evaluated.
+    fn set_extra<'v>(
+        #[starlark(require = pos)] v: Value<'v>,
+        eval: &mut Evaluator<'v, '_, '_>,
+    ) -> anyhow::Result<NoneType> {
+        eval.module().set_extra_value(v);
+        Ok(NoneType)
+    }
+
+    /// `Module::extra_value()` of the module being evaluated (None when unset).
+    fn get_extra<'v>(eval: &mut Evaluator<'v, '_, '_>) -> anyhow::Result<Value<'v>> {
+        Ok(eval.module().extra_value().unwrap_or_else(Value::new_none))
+    }
+}
+
+/// `globals()` plus the host-API natives `intern`, `same`, `set_extra`, `get_extra`.
+pub fn globals_with_host_api() -> Globals {
+    use starlark::environment::LibraryExtension::*;
+    let mut b = GlobalsBuilder::extended_by(&[
+        StructType, RecordType, EnumType, NamespaceType, Map, Filter, Partial, Debug, Print, Pprint,
+        Pstr, Prepr, Json, Typing, Internal, CallStack, SetType,
+    ]);
+    harness_globals(&mut b);
+    host_api_globals(&mut b);
+    b.build()
+}
+
 pub fn dialect() -> Dialect {
     Dialect::AllOptionsInternal
 }
